@@ -22,6 +22,9 @@ func foldableType(t types.Type, depth int) bool {
 	if depth > 6 {
 		return false
 	}
+	if isValueStdType(t) {
+		return true
+	}
 	switch u := t.Underlying().(type) {
 	case *types.Basic:
 		return u.Kind() != types.UnsafePointer
@@ -168,7 +171,8 @@ type initStore struct {
 }
 
 type globalImage struct {
-	ok     bool
+	ok       bool
+	readOnly bool // nothing outside the initialiser writes the variable
 	whole  *initVal // the global is assigned as a whole (scalar constant or slice literal)
 	stores []initStore
 }
@@ -305,6 +309,7 @@ func (p *Program) constGlobalImage(g *ssa.Global) *globalImage {
 			}
 		}
 	}
+	gi.readOnly = true
 	for _, b := range init.Blocks {
 		for _, in := range b.Instrs {
 			if st, ok := in.(*ssa.Store); ok && st.Addr == ssa.Value(g) {
@@ -371,10 +376,155 @@ func (w *Walker) applyInitStores(v *Term, stores []initStore, t types.Type, name
 	return v
 }
 
+// isValueStdType: immutable value types of the standard library whose constructors the walker treats as pure
+// terms (netip.Addr, netip.AddrPort, time.Duration).
+func isValueStdType(t types.Type) bool {
+	n, ok := types.Unalias(t).(*types.Named)
+	if !ok || n.Obj().Pkg() == nil {
+		return false
+	}
+	switch n.Obj().Pkg().Path() + "." + n.Obj().Name() {
+	case "net/netip.Addr", "net/netip.AddrPort", "time.Duration":
+		return true
+	}
+	return false
+}
+
+// evalInitSlice evaluates, with the walker's own transfer functions, exactly the instructions of the package
+// initialiser that the value stored into g depends on (its backward slice; straight-line code of constants,
+// literals and pure constructor calls). Events are discarded. Returns nil when the slice contains anything else.
+func (w *Walker) evalInitSlice(g *ssa.Global) (res *Term) {
+	init := initFn(g)
+	if init == nil {
+		return nil
+	}
+	var store *ssa.Store
+	for _, b := range init.Blocks {
+		for _, in := range b.Instrs {
+			if st, ok := in.(*ssa.Store); ok && st.Addr == ssa.Value(g) {
+				if store != nil {
+					return nil
+				}
+				store = st
+			}
+		}
+	}
+	if store == nil {
+		return nil
+	}
+	need := map[ssa.Instruction]bool{}
+	okSlice := true
+	var visit func(v ssa.Value, depth int)
+	visit = func(v ssa.Value, depth int) {
+		if depth > 12 {
+			okSlice = false
+			return
+		}
+		switch x := v.(type) {
+		case *ssa.Const, *ssa.Function, *ssa.Builtin:
+			return
+		case *ssa.Global:
+			if x != g {
+				okSlice = false // depends on another variable: not a constant expression
+			}
+			return
+		case ssa.Instruction:
+			if need[x] {
+				return
+			}
+			if x.Parent() != init || x.Block() != store.Block() {
+				okSlice = false
+				return
+			}
+			switch y := x.(type) {
+			case *ssa.Call:
+				f := y.Call.StaticCallee()
+				if f == nil || !isPureName(calleeName(f)) {
+					okSlice = false
+					return
+				}
+			case *ssa.Alloc:
+				// a literal: all stores into it belong to the slice
+				need[x] = true
+				for _, bi := range store.Block().Instrs {
+					if st, ok := bi.(*ssa.Store); ok && rootOf(st.Addr) == ssa.Value(y) {
+						need[st] = true
+						visit(st.Val, depth+1)
+						if st.Addr != ssa.Value(y) {
+							visit(st.Addr, depth+1)
+						}
+					}
+				}
+			case *ssa.UnOp, *ssa.BinOp, *ssa.Convert, *ssa.ChangeType, *ssa.IndexAddr, *ssa.FieldAddr, *ssa.Slice, *ssa.Extract, *ssa.MakeInterface:
+			default:
+				okSlice = false
+				return
+			}
+			need[x] = true
+			for _, op := range x.Operands(nil) {
+				if *op != nil {
+					visit(*op, depth+1)
+				}
+			}
+		default:
+			okSlice = false
+		}
+	}
+	visit(store.Val, 0)
+	if !okSlice {
+		return nil
+	}
+	savedEvents := w.events
+	defer func() {
+		w.events = savedEvents
+		if r := recover(); r != nil {
+			if _, isAbort := r.(abortPath); isAbort {
+				res = nil
+				return
+			}
+			panic(r)
+		}
+	}()
+	fr := &frame{fn: init, env: map[ssa.Value]*Term{}, depth: 1, visits: map[*ssa.BasicBlock]int{}}
+	for _, in := range store.Block().Instrs {
+		if need[in] {
+			w.step(fr, in)
+		}
+	}
+	v := w.val(fr, store.Val)
+	if v == nil || hasImpure(v, 0) {
+		return nil
+	}
+	return v
+}
+
+func hasImpure(t *Term, depth int) bool {
+	if t == nil || depth > 8 {
+		return false
+	}
+	switch t.Op {
+	case "fresh", "param", "global", "deref":
+		return true
+	case "call":
+		if t.ID != 0 {
+			return true
+		}
+	}
+	for _, a := range t.Args {
+		if hasImpure(a, depth+1) {
+			return true
+		}
+	}
+	return false
+}
+
 // foldGlobal returns the initial value of a constant table, or nil.
 func (w *Walker) foldGlobal(g *ssa.Global) *Term {
 	gi := w.P.constGlobalImage(g)
 	if !gi.ok {
+		if gi.readOnly && isValueStdType(g.Type().Underlying().(*types.Pointer).Elem()) {
+			return w.evalInitSlice(g)
+		}
 		return nil
 	}
 	et := g.Type().Underlying().(*types.Pointer).Elem()
